@@ -865,10 +865,6 @@ package kapacitor
 //@ func =github.com/influxdata/influxdb/query.NewTags
 //@   trusted
 //@   pure
-//@ func =(github.com/influxdata/kapacitor/models.Fields).Copy
-//@   trusted
-//@   modifies nothing
-//@   ensures result != nil && fresh(result)
 
 //@ func =(github.com/influxdata/influxdb/query.FloatPointEmitter).Emit
 //@   trusted
@@ -1147,3 +1143,84 @@ package kapacitor
 //@     invariant forall n string :: has(served, n) ==> gfi(served[n], got, int) == before(gfi(served[n], got, int))
 //@     invariant forall n string :: has(tm.forks[emptyMeasurementKey], n) && !has(served, n) && seen(n) ==> gfi(tm.forks[emptyMeasurementKey][n], got, int) == before(gfi(tm.forks[emptyMeasurementKey][n], got, int)) + 1
 //@     invariant forall n string :: has(tm.forks[emptyMeasurementKey], n) && !has(served, n) && !seen(n) ==> gfi(tm.forks[emptyMeasurementKey][n], got, int) == before(gfi(tm.forks[emptyMeasurementKey][n], got, int))
+
+// ---------------------------------------------------------------- where.go, default.go (C10)
+
+// where: a point whose predicate holds passes through as the very message received; any other
+// point (predicate false, or an evaluation error, which is logged) is dropped. The received
+// message is never touched.
+//@ func (*whereGroup).doWhere
+//@   props C10 C05
+//@   requires g != nil && g.n != nil && g.n.diag != nil && p != nil && !gfi(p, mutated, bool)
+//@   ensures !gfi(p, mutated, bool) && result1 == nil
+//@   ensures second(EvalPredicate(g.expr, g.n.scopePool, p)) == nil && first(EvalPredicate(g.expr, g.n.scopePool, p)) ==> result0 == p
+//@   ensures second(EvalPredicate(g.expr, g.n.scopePool, p)) != nil || !first(EvalPredicate(g.expr, g.n.scopePool, p)) ==> result0 == nil
+
+// default: tags and fields that a point lacks (or holds as nil / "") get the configured value;
+// everything else is as received. Copy-on-write: no map that existed before is written -- the
+// result is the very map received when nothing was defaulted, a new map otherwise.
+//@ func (*DefaultNode).setDefaults
+//@   props C10 C05
+//@   requires n != nil && n.d != nil && n.fieldsDefaulted != nil && n.tagsDefaulted != nil
+//@   modifies nothing
+//@   ensures [fields-defaulted] forall k string :: has(n.d.Fields, k) && fields[k] == nil ==> has(result0, k) && result0[k] == n.d.Fields[k]
+//@   ensures [fields-kept] forall k string :: !(has(n.d.Fields, k) && fields[k] == nil) ==> has(result0, k) == has(fields, k) && result0[k] == fields[k]
+//@   ensures [tags-defaulted] forall k string :: has(n.d.Tags, k) && tags[k] == "" ==> has(result1, k) && result1[k] == n.d.Tags[k]
+//@   ensures [tags-kept] forall k string :: !(has(n.d.Tags, k) && tags[k] == "") ==> has(result1, k) == has(tags, k) && result1[k] == tags[k]
+//@   ensures [copy-on-write] (result0 == fields || fresh(result0)) && (result1 == tags || fresh(result1))
+//@   loop 1
+//@     modifies nothing
+//@     invariant (fieldsCopied ==> newFields != nil && newinloop(newFields)) && (!fieldsCopied ==> newFields == fields)
+//@     invariant forall k string :: seen(k) && fields[k] == nil ==> has(newFields, k) && newFields[k] == n.d.Fields[k]
+//@     invariant forall k string :: !(seen(k) && fields[k] == nil) ==> has(newFields, k) == has(fields, k) && newFields[k] == fields[k]
+//@   loop 2
+//@     modifies nothing
+//@     invariant (tagsCopied ==> newTags != nil && newinloop(newTags)) && (!tagsCopied ==> newTags == tags)
+//@     invariant forall k string :: seen(k) && tags[k] == "" ==> has(newTags, k) && newTags[k] == n.d.Tags[k]
+//@     invariant forall k string :: !(seen(k) && tags[k] == "") ==> has(newTags, k) == has(tags, k) && newTags[k] == tags[k]
+
+// delete: the listed fields and tags are gone from the result, every other entry is as received.
+// Copy-on-write as for default: no map that existed before is written.
+//@ spec inList(l []string, n int, k string) bool = exists i int :: 0 <= i && i < n && l[i] == k
+//@ func (*DeleteNode).doDeletes
+//@   props C10 C05
+//@   requires n != nil && n.d != nil && n.fieldsDeleted != nil && n.tagsDeleted != nil
+//@   modifies nothing
+//@   ensures [fields-deleted] forall k string :: inList(n.d.Fields, len(n.d.Fields), k) ==> !has(result0, k)
+//@   ensures [fields-kept] forall k string :: !inList(n.d.Fields, len(n.d.Fields), k) ==> has(result0, k) == has(fields, k) && result0[k] == fields[k]
+//@   ensures [tags-deleted] forall k string :: inList(n.d.Tags, len(n.d.Tags), k) ==> !has(result1, k)
+//@   ensures [tags-kept] forall k string :: !inList(n.d.Tags, len(n.d.Tags), k) ==> has(result1, k) == has(tags, k) && result1[k] == tags[k]
+//@   ensures [copy-on-write] (result0 == fields || fresh(result0)) && (result1 == tags || fresh(result1))
+//@   loop 1
+//@     modifies nothing
+//@     invariant 0 <= _i && _i <= len(n.d.Fields)
+//@     invariant (fieldsCopied ==> newFields != nil && newinloop(newFields)) && (!fieldsCopied ==> newFields == fields)
+//@     invariant forall k string :: inList(n.d.Fields, _i, k) ==> !has(newFields, k)
+//@     invariant forall k string :: !inList(n.d.Fields, _i, k) ==> has(newFields, k) == has(fields, k) && newFields[k] == fields[k]
+//@   loop 2
+//@     modifies nothing
+//@     invariant 0 <= _i && _i <= len(n.d.Tags)
+//@     invariant (tagsCopied ==> newTags != nil && newinloop(newTags)) && (!tagsCopied ==> newTags == tags)
+//@     invariant forall k string :: inList(n.d.Tags, _i, k) ==> !has(newTags, k)
+//@     invariant forall k string :: !inList(n.d.Tags, _i, k) ==> has(newTags, k) == has(tags, k) && newTags[k] == tags[k]
+
+// The received message is not touched; what is sent on is a copy carrying the maps computed from
+// the received fields and tags.
+//@ func (*DefaultNode).Point
+//@   props C10 C05
+//@   requires n != nil && n.d != nil && n.fieldsDefaulted != nil && n.tagsDefaulted != nil && p != nil && !gfi(p, mutated, bool)
+//@   ensures !gfi(p, mutated, bool) && result1 == nil && result0 == callresult(ShallowCopy, 0)
+//@   ensures called(setDefaults) && callarg(setDefaults, 0) == p.Fields() && callarg(setDefaults, 1) == p.Tags()
+//@   ensures callarg(SetFields, 0) == callresult(setDefaults, 0) && callarg(SetTags, 0) == callresult(setDefaults, 1)
+//@ func (*DefaultNode).BatchPoint
+//@   props C10 C05
+//@   requires n != nil && n.d != nil && n.fieldsDefaulted != nil && n.tagsDefaulted != nil && bp != nil && !gfi(bp, mutated, bool)
+//@   ensures !gfi(bp, mutated, bool) && result1 == nil && result0 == callresult(ShallowCopy, 0)
+//@   ensures called(setDefaults) && callarg(setDefaults, 0) == bp.Fields() && callarg(setDefaults, 1) == bp.Tags()
+//@   ensures callarg(SetFields, 0) == callresult(setDefaults, 0) && callarg(SetTags, 0) == callresult(setDefaults, 1)
+//@ func (*DeleteNode).BatchPoint
+//@   props C10 C05
+//@   requires n != nil && n.d != nil && n.fieldsDeleted != nil && n.tagsDeleted != nil && bp != nil && !gfi(bp, mutated, bool)
+//@   ensures !gfi(bp, mutated, bool) && result1 == nil && result0 == callresult(ShallowCopy, 0)
+//@   ensures called(doDeletes) && callarg(doDeletes, 0) == bp.Fields() && callarg(doDeletes, 1) == bp.Tags()
+//@   ensures callarg(SetFields, 0) == callresult(doDeletes, 0) && callarg(SetTags, 0) == callresult(doDeletes, 1)
